@@ -116,6 +116,11 @@ func NewUniverseWith(r *lib.Rng, nRandom int, maxVals int, moreTypes []*Spec, mo
 		if crash != "" || pv == nil {
 			continue
 		}
+		if IllFormedValue(pv) {
+			// WrapHash does not look at the keys: a recipe that repeats a key, or uses a key that has no hash key
+			// (a Sensitive), does not make a value (the invariant of C09; the library rejects such keys elsewhere)
+			continue
+		}
 		u.VSpec = append(u.VSpec, v)
 		u.V = append(u.V, pv)
 		d := types.VerifDecodeValue(pv)
@@ -238,3 +243,35 @@ func sortStrings(a []string) {
 
 // ModelStringsOK: the model treats strings as valid UTF-8 and folds case for ASCII only.
 func ModelStringsOK(pats, strs map[string]bool) bool { return true }
+
+// IllFormedValue: some hash inside v holds two equal keys or a key without a hash key (px.ToKey panics)
+func IllFormedValue(v px.Value) (bad bool) {
+	defer func() {
+		if r := recover(); r != nil {
+			bad = true
+		}
+	}()
+	switch v := v.(type) {
+	case *types.Hash:
+		seen := map[px.HashKey]bool{}
+		v.EachPair(func(k, x px.Value) {
+			hk := px.ToKey(k)
+			if seen[hk] {
+				bad = true
+			}
+			seen[hk] = true
+			if IllFormedValue(k) || IllFormedValue(x) {
+				bad = true
+			}
+		})
+	case *types.Array:
+		v.Each(func(x px.Value) {
+			if IllFormedValue(x) {
+				bad = true
+			}
+		})
+	case *types.Sensitive:
+		return IllFormedValue(v.Unwrap())
+	}
+	return
+}
